@@ -66,10 +66,92 @@ func init() {
 			return r, true
 		},
 		"strings.Contains": func(in *Interp, _ *frame, a []Value) (Value, bool) {
-			return in.lift2Bool(a[0].(*Str), a[1].(*Str), "strings.Contains", strings.Contains), true
+			tf := in.tf
+			return tf.Not(tf.Eq(in.strIndexOf(a[0].(*Str), a[1].(*Str), false), tf.BV(64, ^uint64(0)))), true
 		},
 		"strings.Index": func(in *Interp, _ *frame, a []Value) (Value, bool) {
-			return in.lift2Int(a[0].(*Str), a[1].(*Str), "strings.Index", strings.Index), true
+			return IntV{in.strIndexOf(a[0].(*Str), a[1].(*Str), false)}, true
+		},
+		"strings.LastIndex": func(in *Interp, _ *frame, a []Value) (Value, bool) {
+			return IntV{in.strIndexOf(a[0].(*Str), a[1].(*Str), true)}, true
+		},
+		"strings.IndexByte": func(in *Interp, _ *frame, a []Value) (Value, bool) {
+			return IntV{in.strIndexOf(a[0].(*Str), &Str{Alts: []SAlt{mkAlt(in.tf.T, []*Term{a[1].(IntV).T})}}, false)}, true
+		},
+		"strings.LastIndexByte": func(in *Interp, _ *frame, a []Value) (Value, bool) {
+			return IntV{in.strIndexOf(a[0].(*Str), &Str{Alts: []SAlt{mkAlt(in.tf.T, []*Term{a[1].(IntV).T})}}, true)}, true
+		},
+		"strings.IndexRune": func(in *Interp, _ *frame, a []Value) (Value, bool) {
+			r := a[1].(IntV).T
+			if !r.IsConst() || !utf8.ValidRune(rune(int32(r.Val))) {
+				return nil, false
+			}
+			return IntV{in.strIndexOf(a[0].(*Str), concStr(in.tf, string(rune(int32(r.Val)))), false)}, true
+		},
+		"strings.ContainsRune": func(in *Interp, _ *frame, a []Value) (Value, bool) {
+			tf := in.tf
+			r := a[1].(IntV).T
+			if !r.IsConst() || !utf8.ValidRune(rune(int32(r.Val))) {
+				return nil, false
+			}
+			return tf.Not(tf.Eq(in.strIndexOf(a[0].(*Str), concStr(tf, string(rune(int32(r.Val)))), false), tf.BV(64, ^uint64(0)))), true
+		},
+		"strings.IndexAny": func(in *Interp, _ *frame, a []Value) (Value, bool) {
+			c := a[1].(*Str)
+			if !c.IsConc() || !isASCII(c.Conc()) {
+				return nil, false
+			}
+			return IntV{in.strIndexAny(a[0].(*Str), c.Conc(), false)}, true
+		},
+		"strings.LastIndexAny": func(in *Interp, _ *frame, a []Value) (Value, bool) {
+			c := a[1].(*Str)
+			if !c.IsConc() || !isASCII(c.Conc()) {
+				return nil, false
+			}
+			return IntV{in.strIndexAny(a[0].(*Str), c.Conc(), true)}, true
+		},
+		"strings.ContainsAny": func(in *Interp, _ *frame, a []Value) (Value, bool) {
+			tf := in.tf
+			c := a[1].(*Str)
+			if !c.IsConc() || !isASCII(c.Conc()) {
+				return nil, false
+			}
+			return tf.Not(tf.Eq(in.strIndexAny(a[0].(*Str), c.Conc(), false), tf.BV(64, ^uint64(0)))), true
+		},
+		"bytes.Contains": func(in *Interp, _ *frame, a []Value) (Value, bool) {
+			tf := in.tf
+			return tf.Not(tf.Eq(in.strIndexOf(in.bytesToStr(a[0].(SliceV)), in.bytesToStr(a[1].(SliceV)), false), tf.BV(64, ^uint64(0)))), true
+		},
+		"bytes.Index": func(in *Interp, _ *frame, a []Value) (Value, bool) {
+			return IntV{in.strIndexOf(in.bytesToStr(a[0].(SliceV)), in.bytesToStr(a[1].(SliceV)), false)}, true
+		},
+		"bytes.LastIndex": func(in *Interp, _ *frame, a []Value) (Value, bool) {
+			return IntV{in.strIndexOf(in.bytesToStr(a[0].(SliceV)), in.bytesToStr(a[1].(SliceV)), true)}, true
+		},
+		"bytes.IndexByte": func(in *Interp, _ *frame, a []Value) (Value, bool) {
+			return IntV{in.strIndexOf(in.bytesToStr(a[0].(SliceV)), &Str{Alts: []SAlt{mkAlt(in.tf.T, []*Term{a[1].(IntV).T})}}, false)}, true
+		},
+		"bytes.LastIndexByte": func(in *Interp, _ *frame, a []Value) (Value, bool) {
+			return IntV{in.strIndexOf(in.bytesToStr(a[0].(SliceV)), &Str{Alts: []SAlt{mkAlt(in.tf.T, []*Term{a[1].(IntV).T})}}, true)}, true
+		},
+		"bytes.IndexAny": func(in *Interp, _ *frame, a []Value) (Value, bool) {
+			c := a[1].(*Str)
+			if !c.IsConc() || !isASCII(c.Conc()) {
+				return nil, false
+			}
+			return IntV{in.strIndexAny(in.bytesToStr(a[0].(SliceV)), c.Conc(), false)}, true
+		},
+		"bytes.ContainsAny": func(in *Interp, _ *frame, a []Value) (Value, bool) {
+			tf := in.tf
+			c := a[1].(*Str)
+			if !c.IsConc() || !isASCII(c.Conc()) {
+				return nil, false
+			}
+			return tf.Not(tf.Eq(in.strIndexAny(in.bytesToStr(a[0].(SliceV)), c.Conc(), false), tf.BV(64, ^uint64(0)))), true
+		},
+		"strings.Cut": func(in *Interp, _ *frame, a []Value) (Value, bool) {
+			before, after, found := in.strCut(a[0].(*Str), a[1].(*Str))
+			return Tuple{before, after, found}, true
 		},
 		"strings.EqualFold": func(in *Interp, _ *frame, a []Value) (Value, bool) {
 			return in.lift2Bool(a[0].(*Str), a[1].(*Str), "strings.EqualFold", strings.EqualFold), true
@@ -209,11 +291,21 @@ func init() {
 		"unicode/utf8.RuneLen": func(in *Interp, _ *frame, a []Value) (Value, bool) {
 			return IntV{in.tf.BV(64, uint64(utf8.RuneLen(rune(in.concInt(a[0])))))}, true
 		},
-		"fmt.Printf":  func(in *Interp, _ *frame, a []Value) (Value, bool) { return Tuple{IntV{in.tf.BV(64, 0)}, Iface{}}, true },
-		"fmt.Println": func(in *Interp, _ *frame, a []Value) (Value, bool) { return Tuple{IntV{in.tf.BV(64, 0)}, Iface{}}, true },
-		"fmt.Print":   func(in *Interp, _ *frame, a []Value) (Value, bool) { return Tuple{IntV{in.tf.BV(64, 0)}, Iface{}}, true },
-		"fmt.Fprintf": func(in *Interp, _ *frame, a []Value) (Value, bool) { return Tuple{IntV{in.tf.BV(64, 0)}, Iface{}}, true },
-		"fmt.Fprintln": func(in *Interp, _ *frame, a []Value) (Value, bool) { return Tuple{IntV{in.tf.BV(64, 0)}, Iface{}}, true },
+		"fmt.Printf": func(in *Interp, _ *frame, a []Value) (Value, bool) {
+			return Tuple{IntV{in.tf.BV(64, 0)}, Iface{}}, true
+		},
+		"fmt.Println": func(in *Interp, _ *frame, a []Value) (Value, bool) {
+			return Tuple{IntV{in.tf.BV(64, 0)}, Iface{}}, true
+		},
+		"fmt.Print": func(in *Interp, _ *frame, a []Value) (Value, bool) {
+			return Tuple{IntV{in.tf.BV(64, 0)}, Iface{}}, true
+		},
+		"fmt.Fprintf": func(in *Interp, _ *frame, a []Value) (Value, bool) {
+			return Tuple{IntV{in.tf.BV(64, 0)}, Iface{}}, true
+		},
+		"fmt.Fprintln": func(in *Interp, _ *frame, a []Value) (Value, bool) {
+			return Tuple{IntV{in.tf.BV(64, 0)}, Iface{}}, true
+		},
 		"fmt.Errorf": func(in *Interp, _ *frame, a []Value) (Value, bool) {
 			return in.errorfModel(a[0].(*Str), a[1].(SliceV)), true
 		},
@@ -729,8 +821,26 @@ func (in *Interp) decodeRune(s *Str) Value {
 		}
 		return runeErr
 	}
-	in.unsupported("utf8.DecodeRuneInString on a symbolic lead byte of a four-byte sequence")
-	return nil
+	// four-byte sequences: lead 0xF0..0xF4; second byte 90..BF after F0, 80..8F after F4, else 80..BF
+	if in.branch(tf.Cmp(OpUle, b, tf.BV(8, 0xf4))) {
+		if a.Len() < 4 {
+			return runeErr
+		}
+		b1, b2, b3 := a.ByteAt(tf, 1), a.ByteAt(tf, 2), a.ByteAt(tf, 3)
+		lo2 := tf.Ite(tf.Eq(b, tf.BV(8, 0xf0)), tf.BV(8, 0x90), tf.BV(8, 0x80))
+		hi2 := tf.Ite(tf.Eq(b, tf.BV(8, 0xf4)), tf.BV(8, 0x8f), tf.BV(8, 0xbf))
+		ok := tf.AndN(tf.Cmp(OpUle, lo2, b1), tf.Cmp(OpUle, b1, hi2), tf.Cmp(OpUle, tf.BV(8, 0x80), b2), tf.Cmp(OpUle, b2, tf.BV(8, 0xbf)),
+			tf.Cmp(OpUle, tf.BV(8, 0x80), b3), tf.Cmp(OpUle, b3, tf.BV(8, 0xbf)))
+		if in.branch(ok) {
+			w := tf.Bin(OpShl, tf.Bin(OpBAnd, tf.Resize(b, 32, false), tf.BV(32, 0x07)), tf.BV(32, 18))
+			x := tf.Bin(OpShl, tf.Bin(OpBAnd, tf.Resize(b1, 32, false), tf.BV(32, 0x3f)), tf.BV(32, 12))
+			y := tf.Bin(OpShl, tf.Bin(OpBAnd, tf.Resize(b2, 32, false), tf.BV(32, 0x3f)), tf.BV(32, 6))
+			z := tf.Bin(OpBAnd, tf.Resize(b3, 32, false), tf.BV(32, 0x3f))
+			return Tuple{IntV{tf.Bin(OpBOr, tf.Bin(OpBOr, w, x), tf.Bin(OpBOr, y, z))}, IntV{tf.BV(64, 4)}}
+		}
+		return runeErr
+	}
+	return runeErr // 0xF5..0xFF never start a character
 }
 
 // ---- errors ----------------------------------------------------------------
